@@ -1,5 +1,5 @@
 From C09 Require Import Model.
 Require Extraction.
 Require Import ExtrOcamlBasic.
-Extraction "model.ml" is_used emitted graph_of h_idiv h_imod h_bounds h_deref h_narrow_int
+Extraction "model.ml" is_used emitted graph_of idiv_helper imod_helper h_bounds h_deref h_narrow_int
   nochecks_of nodce_of cflags_of has_flag base_mode FWRAPV I8 I16 I32 I64 U8 U16 U32 U64.
